@@ -21,6 +21,47 @@ pub fn case(ctx: &mut Ctx, cfg: &Cfg, data: &[u8], kind: &str, sink: Sink, tiny:
     }
 }
 
+/// A block flush in the middle of one call while a lazy match is pending and the output buffer
+/// cannot take the block: poorly compressible data with sparse short matches, 32-50 KiB in one
+/// chunk, lazy levels, small output buffers.
+fn lazy_boundary(ctx: &mut Ctx) {
+    let n = 300 * ctx.scale;
+    for _ in 0..n {
+        // long enough for the LZ code buffer to fill (a block flush in the middle of the call)
+        let len = if ctx.rng.chance(1, 3) { ctx.rng.range(32000, 52000) } else { ctx.rng.range(70000, 130000) };
+        let mut data = Vec::with_capacity(len);
+        let alpha = ctx.rng.range(12, 40) as u8;
+        while data.len() < len {
+            if data.len() > 40 && ctx.rng.chance(1, 5) {
+                let d = ctx.rng.range(1, data.len().min(3000));
+                let k = ctx.rng.range(3, 9);
+                for _ in 0..k { let b = data[data.len() - d]; data.push(b); }
+            } else { data.push(b'A' + ctx.rng.below(alpha as usize) as u8); }
+        }
+        data.truncate(len);
+        let cfg = Cfg { level: ctx.rng.range(4, 10) as u8, strategy: 0, zlib: ctx.rng.chance(1, 2), wb: 15 };
+        let id = ctx.id();
+        // the schedule of compress_to_vec: whole input, Finish, output starting at len/2 and growing
+        let mut c = cfg.make();
+        let mut out = vec![0u8; if ctx.rng.chance(1, 3) { (len / 2).max(2) } else { ctx.rng.range(500, 30000) }];
+        let (mut ipos, mut opos) = (0usize, 0usize);
+        let mut ok = false;
+        for _ in 0..64 {
+            let (st, i, o) = miniz_oxide::deflate::core::compress(&mut c, &data[ipos..], &mut out[opos..], miniz_oxide::deflate::core::TDEFLFlush::Finish);
+            ipos += i; opos += o;
+            if st == miniz_oxide::deflate::core::TDEFLStatus::Done { ok = true; break; }
+            if st != miniz_oxide::deflate::core::TDEFLStatus::Okay { break; }
+            if out.len() - opos < 30 { let l = out.len() + ctx.rng.range(16, 4000); out.resize(l, 0); }
+        }
+        ctx.eval(fnv(&data) ^ cfg.level as u64);
+        ctx.count("lazy_boundary_cases");
+        let replay = format!("SCHED {} sink=0 tiny=0 seed=0 in={}", cfg.describe(), hex(&data));
+        if !ok { ctx.violation(id, "status", "grow-and-retry schedule did not finish".into(), replay); continue; }
+        out.truncate(opos);
+        ctx.line(&format!("ENC id={} rp=SCHED;sink=0;tiny=0;seed=0 checks=rt modes=- {} in={} comp={}", id, cfg.describe(), hex(&data), hex(&out)));
+    }
+}
+
 pub fn run(ctx: &mut Ctx) {
     if let Some(lines) = ctx.replay_lines.clone() {
         for l in lines { if let Some(rest) = l.strip_prefix("SCHED ") { let kv = crate::kv(rest);
@@ -28,6 +69,7 @@ pub fn run(ctx: &mut Ctx) {
             case(ctx, &cfg, &crate::tx::unhex(&kv["in"]), "replay", if kv["sink"] == "1" { Sink::Callback } else { Sink::Buf }, kv["tiny"] == "1", kv["seed"].parse().unwrap(), "rt"); } }
         return;
     }
+    lazy_boundary(ctx);
     let n = 260 * ctx.scale;
     for i in 0..n {
         let cfg = if i < 55 { Cfg { level: (i % 11) as u8, strategy: ((i / 11) % 5) as u8, zlib: i % 2 == 0, wb: 15 } } else { Cfg::random(&mut ctx.rng) };
